@@ -233,8 +233,19 @@ class Gen:
                     self.clear(h, 0)
         self.ins([ha, hb])
 
+    def stale_write(self):
+        """(undisciplined sequences only) write through a branch that was inserted or handed out uncopied."""
+        cands = [(h, k, f) for h, b in enumerate(self.held) for k, u in enumerate(b) for f in FIELDS
+                 if u[f] is not None and not u[f].owned]
+        if not cands:
+            return False
+        self.write(*self.rng.choice(cands))
+        return True
+
     def single(self):
         r = self.rng.random()
+        if not self.disc and self.rng.random() < 0.25 and self.stale_write():
+            return
         if r < 0.2 or not self.held:
             self.ext(self.rand_id())
         elif r < 0.27:
@@ -311,17 +322,28 @@ def as_map(view):
     return {tuple(u[0]): (u[1], u[2], u[3]) for u in view}
 
 
+ORACLE_STATS = {"act_coherent": 0, "act_incoherent": 0}
+
+
 def expected_active(snap, roots, children):
+    """The independently moving units, stated on values only: a composite object all of whose point masses move
+    is one unit (its root); otherwise the moving point masses are.  (One level: the moving point masses.)"""
     out = []
     for i in range(roots):
-        if snap[(i,)][1] is None:
-            continue
         if children == 0:
-            out.append((i,))
+            if snap[(i,)][1] is not None:
+                out.append((i,))
             continue
         ls = [(i, j) for j in range(children) if snap[(i, j)][1] is not None]
         out += [(i,)] if len(ls) == children else ls
     return out
+
+
+def coherent(snap, roots, children):
+    """Domain of the clause about the active part (docstring of yield_independent_lifted_identifiers, property
+    C12): a moving point mass induces a velocity of its composite object."""
+    return all(snap[(i,)][1] is not None for i in range(roots) for j in range(children)
+               if snap[(i, j)][1] is not None)
 
 
 def branch_ids(ident, children):
@@ -367,11 +389,18 @@ def oracle(seq, out):
                 return n, m
             add_shadow(rec["ret"][0])
         elif k == "act":
-            ids = expected_active(snap, roots, children)
             got = rec["ret"]
-            if len(got) != len(ids):
-                return n, "extract_active_global_state returned %d branches, independent active units are %r" % (
-                    len(got), ids)
+            if coherent(snap, roots, children):
+                ORACLE_STATS["act_coherent"] += 1
+                ids = expected_active(snap, roots, children)
+                if len(got) != len(ids):
+                    return n, "extract_active_global_state returned %d branches, independent active units are %r" % (
+                        len(got), ids)
+            else:
+                # a point mass moves while its composite object has no velocity: outside the domain of the
+                # clause; the branches handed out must still be correct copies
+                ORACLE_STATS["act_incoherent"] += 1
+                ids = [tuple(v[-1][0]) if len(v) == 2 and children > 1 else tuple(v[0][0]) for v in got]
             for view, ident in zip(got, ids):
                 m = check_branch(view, ident)
                 if m:
@@ -468,11 +497,16 @@ def case_term(seq, out):
     if any("exc" in r for r in out["steps"]):
         return None
     steps = []
+    prev = as_map(out["init"])
     for op, rec in zip(seq["ops"], out["steps"]):
         ret = "[" + "; ".join(coq_view(v) for v in rec.get("ret", [])) + "]"
-        same = rec.get("same", False)
-        steps.append("(%s, mkExp %s %s %s %d)" % (coq_op(op), ret, C.coq_bool(same),
-                                                 "[]" if same else coq_view(rec["glob"]), rec["alias"]))
+        diff = []
+        if not rec.get("same", False):
+            diff = [u for u in rec["glob"] if prev.get(tuple(u[0])) != (u[1], u[2], u[3])]
+            if len(rec["glob"]) != len(prev) or not diff:
+                diff = rec["glob"]      # shape changed (impossible for a correct implementation): compare all
+            prev = as_map(rec["glob"])
+        steps.append("(%s, mkExp %s %s %d)" % (coq_op(op), ret, coq_view(diff), rec["alias"]))
     tree = "[" + "; ".join("(%s, [%s])" % (cz(pb), "; ".join(cz(c) for c in cps)) for pb, cps in seq["tree"]) + "]"
     return "mkCase %d %d %s %s %s\n [%s]" % (1 if seq["children"] == 0 else 2, max(seq["children"], 1), tree,
                                            C.coq_bool(seq["disc"]), coq_view(out["init"]), ";\n  ".join(steps))
@@ -538,20 +572,24 @@ REAL_CONFIGS = [
 ]
 
 
-def real_runs(ctx):
-    n = ctx.n(4, len(REAL_CONFIGS))
-    cfgs = list(REAL_CONFIGS)
-    ctx.rng.shuffle(cfgs)
-    cfgs = cfgs[:n]
+def real_runs(ctx, configs=None):
+    if configs is None:
+        n = ctx.n(4, len(REAL_CONFIGS))
+        configs = list(REAL_CONFIGS)
+        ctx.rng.shuffle(configs)
+        configs = configs[:n]
     end = ctx.n("6.0", "40.0")
     payloads = [{"mode": "runs", "config": {
         "ini": c, "seed": ctx.rng.randrange(1 << 30), "check_extract_every": 7,
-        "override": [["FinalTimeEndOfRunEventHandler", "end_of_run_time", end]]}} for c in cfgs]
-    outs = C.run_driver_parallel(ctx, "c13_state", payloads, timeout=900)
+        "override": [["FinalTimeEndOfRunEventHandler", "end_of_run_time", end]]}} for c in configs]
+    outs = C.run_driver_parallel(ctx, "c13_state", payloads, timeout=1500)
     return [o["out"][0] for o in outs]
 
 
-def run(ctx, seqs_override=None, with_real_runs=True):
+BATCH = 2500
+
+
+def run(ctx, seqs_override=None, with_real_runs=True, run_configs=None):
     C.build_scratch(ctx, exts=("heap", "mic", "ipc") if with_real_runs else ())
     broken = []
     ok, out, nthm = C.check_props(ctx)
@@ -559,67 +597,121 @@ def run(ctx, seqs_override=None, with_real_runs=True):
         broken.append("Props/C13.v does not check: " + out[-600:])
     nseq = ctx.n(1000, 50000)
     nops = 30
-    if seqs_override is not None:
-        seqs = seqs_override
-    else:
-        seqs = load_corpus()
-        shapes = [(r, c) for r in range(1, 6) for c in range(0, 5)]
-        for r, c in shapes:     # every shape at least once, disciplined and not
-            seqs.append(gen_seq(ctx.rng, nops, forced=(r, c, ctx.rng.choice([1, 2, 3]), True)))
-        while len(seqs) < nseq:
-            seqs.append(gen_seq(ctx.rng, nops))
-    outs = run_impl(ctx, seqs)
 
-    # oracle (model-independent) on the disciplined sequences
-    fails = []
-    for i, (s, o) in enumerate(zip(seqs, outs)):
-        if s["disc"]:
-            m = oracle(s, o)
-            if m:
-                fails.append((i, m))
-        elif any("exc" in r for r in o["steps"]):
-            fails.append((i, (0, "operation raised an exception")))
+    # ---- op sequences, in batches (a thorough run would not fit in memory otherwise)
+    stats = {"kinds": {}, "shapes": set(), "nseq": 0, "ndisc": 0, "undisc_writes": 0, "nsteps": 0, "changed": 0,
+             "max_alias": 0, "charge_alias": 0, "distinct": set(), "neval": 0, "nfiles": 0, "nok": 0, "samples": []}
+    fails = []          # (sequence, (op index, message))
+    mism = []           # sequences on which model and implementation disagree
+    first = True
+    done = 0
+    batch_no = 0
+    while True:
+        if seqs_override is not None:
+            if not first:
+                break
+            seqs = list(seqs_override)
+        else:
+            if done >= nseq:
+                break
+            seqs = []
+            if first:
+                seqs += load_corpus()
+                for r in range(1, 6):       # every shape at least once
+                    for c in range(0, 5):
+                        seqs.append(gen_seq(ctx.rng, nops, forced=(r, c, ctx.rng.choice([1, 2, 3]), True)))
+            while len(seqs) < min(BATCH, nseq - done):
+                seqs.append(gen_seq(ctx.rng, nops))
+        first = False
+        done += len(seqs)
+        if not seqs:
+            break
+        outs = run_impl(ctx, seqs)
+        # oracle (model-independent) on the disciplined sequences
+        for s, o in zip(seqs, outs):
+            if s["disc"]:
+                m = oracle(s, o)
+                if m:
+                    fails.append((s, m))
+            elif any("exc" in r for r in o["steps"]):
+                fails.append((s, (0, "operation raised an exception")))
+        # correspondence inside Coq
+        terms, idxmap = [], []
+        for i, (s, o) in enumerate(zip(seqs, outs)):
+            t = case_term(s, o)
+            if t is not None:
+                terms.append(t)
+                idxmap.append(i)
+        neval, bad, nfiles, nok, err = C.eval_cases(ctx, "c13_%03d" % batch_no, HEADER, terms, "check_scase", "scase",
+                                                    per_file=64)
+        batch_no += 1
+        if err:
+            broken.append("correspondence case files did not evaluate: " + err[-600:])
+        elif not bad and batch_no > 1:
+            # keep the scratch small in a thorough run (the .vo of a case file holds all its data)
+            for fn in os.listdir(ctx.gen):
+                if fn.startswith("cases_c13_%03d_" % (batch_no - 1)) or fn.startswith(".cases_c13_%03d_" % (batch_no - 1)):
+                    os.remove(os.path.join(ctx.gen, fn))
+        mism += [seqs[idxmap[i]] for i in bad]
+        # statistics
+        stats["neval"] += neval
+        stats["nfiles"] += nfiles
+        stats["nok"] += nok
+        if not stats["samples"]:
+            stats["samples"] = [{"shape": [s["roots"], s["children"], s["dim"]], "disciplined": s["disc"],
+                                 "ops": s["ops"][:12]} for s in seqs[:3]]
+        for s, o in zip(seqs, outs):
+            stats["nseq"] += 1
+            stats["ndisc"] += 1 if s["disc"] else 0
+            stats["undisc_writes"] += s.get("undisciplined_writes", 0)
+            stats["shapes"].add((s["roots"], s["children"], s["dim"], s["disc"]))
+            stats["nsteps"] += len(s["ops"])
+            has_ins = False
+            for op in s["ops"]:
+                stats["kinds"][op[0]] = stats["kinds"].get(op[0], 0) + 1
+                has_ins = has_ins or op[0] == "ins"
+            if has_ins:
+                stats["distinct"].add(hash(json.dumps(s["ops"])))
+            for r in o["steps"]:
+                if "glob" in r:
+                    stats["changed"] += 1
+                if r["alias"] > stats["max_alias"]:
+                    stats["max_alias"] = r["alias"]
+            stats["charge_alias"] = max(stats["charge_alias"], o.get("charge_alias", 0))
+        if fails:
+            break       # a failing input is in hand; report it
 
-    # correspondence inside Coq
-    terms, idxmap = [], []
-    for i, (s, o) in enumerate(zip(seqs, outs)):
-        t = case_term(s, o)
-        if t is not None:
-            terms.append(t)
-            idxmap.append(i)
-    neval, bad, nfiles, nok, err = C.eval_cases(ctx, "c13", HEADER, terms, "check_scase", "scase", per_file=64)
-    if err:
-        broken.append("correspondence case files did not evaluate: " + err[-600:])
-    mism = [idxmap[i] for i in bad]
-
-    # real runs: every commit observed
+    # ---- real runs: every commit observed
     runs = []
     run_fail = None
-    if with_real_runs and seqs_override is None:
-        runs = real_runs(ctx)
+    if with_real_runs and (seqs_override is None or run_configs):
+        runs = real_runs(ctx, run_configs)
         for r in runs:
             if r.get("exc"):
                 broken.append("real run %s did not complete: %s" % (r["config"], r["exc"][-300:]))
             elif r["changed_between_commits"] or r["insert_not_exact"] or r["extract_changed_state"]:
                 run_fail = run_fail or r
 
+    # ---- verdict
     if fails:
-        i, (n, m) = fails[0]
-        seq = seqs[i]
-        try:
-            def pred(s):
-                o = run_impl(ctx, [s])[0]
-                r = oracle(s, o)
-                return r is not None and category(r[1]) == category(m)
-            small = shrink(ctx, seq, pred) if seq["disc"] else seq
-        except Exception:  # noqa
-            small = seq
-        o = run_impl(ctx, [small])[0]
-        mm = oracle(small, o) if small["disc"] else (n, m)
-        C.violation(ctx, "oracle", {"kind": "c13-seqs", "seqs": [small], "message": (mm or (n, m))[1],
-                                    "failing_op_index": (mm or (n, m))[0], "n_failing_sequences": len(fails),
+        seq, (n, m) = fails[0]
+        small = seq
+        if seq["disc"]:
+            try:
+                def pred(s):
+                    o = run_impl(ctx, [s])[0]
+                    r = oracle(s, o)
+                    return r is not None and category(r[1]) == category(m)
+                small = shrink(ctx, seq, pred)
+            except Exception:  # noqa
+                small = seq
+            mm = oracle(small, run_impl(ctx, [small])[0]) or (n, m)
+        else:
+            mm = (n, m)
+        C.violation(ctx, "oracle", {"kind": "c13-seqs", "seqs": [small], "message": mm[1],
+                                    "failing_op_index": mm[0], "n_failing_sequences": len(fails),
                                     "original_length": len(seq["ops"])},
-                    "C13 fails on the implementation: " + (mm or (n, m))[1])
+                    "C13 fails on the implementation: " + mm[1])
     elif run_fail:
         C.violation(ctx, "realrun", {"kind": "c13-run", "run": run_fail},
                     "C13 fails on a real run of %s: %d state changes between commits, %d inexact commits, %d "
@@ -627,9 +719,8 @@ def run(ctx, seqs_override=None, with_real_runs=True):
                                                             run_fail["insert_not_exact"],
                                                             run_fail["extract_changed_state"]))
     elif mism:
-        i = mism[0]
         C.violation(ctx, "correspondence",
-                    {"kind": "c13-seqs", "seqs": [seqs[i]],
+                    {"kind": "c13-seqs", "seqs": [mism[0]],
                      "message": "Model/StateHandler.v and TreeStateHandler disagree on %d sequences (returned "
                                 "branches, global state after an op, or number of aliased objects); the "
                                 "dict-of-values oracle found no failing input; correspondence "
@@ -638,33 +729,25 @@ def run(ctx, seqs_override=None, with_real_runs=True):
     elif broken:
         C.violation(ctx, "obligation", {"kind": "obligation", "broken": broken}, broken[0][:200], nofail=True)
 
-    kinds = {}
-    shapes_seen = set()
-    for s in seqs:
-        shapes_seen.add((s["roots"], s["children"], s["dim"], s["disc"]))
-        for op in s["ops"]:
-            kinds[op[0]] = kinds.get(op[0], 0) + 1
-    nsteps = sum(len(s["ops"]) for s in seqs)
-    changed = sum(1 for o in outs for r in o["steps"] if "glob" in r)
-    max_alias = max([r["alias"] for o in outs for r in o["steps"]] or [0])
-    charge_alias = max([o.get("charge_alias", 0) for o in outs] or [0])
     C.write_evidence(ctx, {
-        "evaluations": nsteps,
-        "distinct_nontrivial": len({json.dumps(s["ops"]) for s in seqs if any(op[0] == "ins" for op in s["ops"])}),
-        "rule": "distinct op sequences containing at least one insert (every sequence has random float payloads, so "
-                "two sequences are never equal); each sequence has >= %d ops on a tree with 1-5 roots x 0-4 children" % nops,
-        "samples": [{"shape": [s["roots"], s["children"], s["dim"]], "disciplined": s["disc"], "ops": s["ops"][:12]}
-                    for s in seqs[:3]],
-        "input_distribution": {"sequences": len(seqs), "ops_by_kind": kinds, "tree_shapes_x_dim_x_discipline": len(shapes_seen),
-                               "disciplined_sequences": sum(1 for s in seqs if s["disc"]),
-                               "undisciplined_writes": sum(s.get("undisciplined_writes", 0) for s in seqs),
-                               "ops_after_which_global_state_changed": changed,
-                               "max_aliased_slots_observed": max_alias,
-                               "charge_dict_aliased_slots_max (not part of the property)": charge_alias},
+        "evaluations": stats["nsteps"],
+        "distinct_nontrivial": len(stats["distinct"]),
+        "rule": "distinct op sequences containing at least one insert (payloads are random floats, so two sequences "
+                "are never equal); each sequence has >= %d ops on a tree with 1-5 roots x 0-4 children" % nops,
+        "samples": stats["samples"],
+        "input_distribution": {"sequences": stats["nseq"], "ops_by_kind": stats["kinds"],
+                               "tree_shapes_x_dim_x_discipline": len(stats["shapes"]),
+                               "disciplined_sequences": stats["ndisc"],
+                               "undisciplined_writes (through inserted / uncopied branches)": stats["undisc_writes"],
+                               "ops_after_which_global_state_changed": stats["changed"],
+                               "max_aliased_slots_observed": stats["max_alias"],
+                               "extract_active_checked_against_rule (coherent states)": ORACLE_STATS["act_coherent"],
+                               "extract_active_in_incoherent_states (copies checked only)": ORACLE_STATS["act_incoherent"],
+                               "charge_dict_aliased_slots_max (not part of the property)": stats["charge_alias"]},
         "model_vs_impl_mismatches": len(mism),
         "oracle_failures": len(fails),
-        "traces_validated_against_impl": neval,
-        "case_files": nfiles, "case_files_ok": nok,
+        "traces_validated_against_impl": stats["neval"],
+        "case_files": stats["nfiles"], "case_files_ok": stats["nok"],
         "real_runs": [{k: r.get(k) for k in ("config", "commits", "units_inserted", "extracts",
                                               "changed_between_commits", "insert_not_exact", "extract_changed_state")}
                       for r in runs],
@@ -700,9 +783,6 @@ def load_corpus():
 def replay(ctx, path):
     data = json.load(open(path))
     if data.get("kind") == "c13-run":
-        cfg = data["run"]["config"]
-        global REAL_CONFIGS
-        REAL_CONFIGS = [cfg]
-        run(ctx, seqs_override=None)
+        run(ctx, seqs_override=[], run_configs=[data["run"]["config"]])
     else:
         run(ctx, seqs_override=data.get("seqs", []), with_real_runs=False)
